@@ -571,6 +571,7 @@ class Normaliser:
         self.mod, self.known, self.depth = mod, set(known), depth
         self.scope = set(scope) if scope is not None else None
         self.count = 0
+        self.scalarised: List[str] = []
         self.inlined: Dict[str, int] = {}
         self.refused: Dict[str, str] = {}
         self.methods: Dict[str, List[Tuple[ast.ClassDef, ast.FunctionDef]]] = {}
@@ -607,13 +608,82 @@ class Normaliser:
             return self.functions[f.id], None, "function"
         return None
 
-    def _bind(self, h, recv, kind, call):
+    def cm_callee(self, call):
+        """like callee(), for a private helper decorated with exactly @contextmanager whose generator body has the one-yield shape read by _expand_with"""
+        if not isinstance(call, ast.Call):
+            return None
+        f = call.func
+        h = recv = kind = None
+        if isinstance(f, ast.Attribute) and self._helper_name_ok(f.attr) and len(self.methods.get(f.attr, [])) == 1 and _simple_expr(f.value):
+            cls, h = self.methods[f.attr][0]
+            if isinstance(f.value, ast.Name) and f.value.id == cls.name:
+                return None
+            recv, kind = f.value, "method"
+        elif isinstance(f, ast.Name) and self._helper_name_ok(f.id) and f.id in self.functions:
+            h, kind = self.functions[f.id], "function"
+        if h is None or [(dotted(d) or src(d)).split(".")[-1] for d in h.decorator_list] != ["contextmanager"]:
+            return None
+        return h, recv, kind
+
+    def _expand_with(self, st, level):
+        """``with self._helper(..) as v: BODY`` for a private @contextmanager generator with a single ``yield`` statement that every run reaches exactly once
+        (top level of the generator, or nested in with / try blocks only): BODY takes the place of the yield, ``v`` is bound to the yielded value.  That is
+        what contextlib does: an exception of BODY is raised at the yield, a normal end of BODY resumes after it."""
+        if not (isinstance(st, ast.With) and len(st.items) == 1):
+            return None
+        call = st.items[0].context_expr
+        got = self.cm_callee(call)
+        if got is None:
+            return None
+        h = got[0]
+        ys = [x for x in walk_local(h) if isinstance(x, (ast.Yield, ast.YieldFrom))]
+        if len(ys) != 1 or isinstance(ys[0], ast.YieldFrom) or any(isinstance(x, ast.Return) for x in walk_local(h)):
+            raise _NoInline("context manager generator without the one-yield shape")
+        ystmt = getattr(ys[0], "_parent", None)
+        if not isinstance(ystmt, ast.Expr):
+            raise _NoInline("yield used as an expression")
+        p = getattr(ystmt, "_parent", None)
+        while p is not None and p is not h:
+            if not isinstance(p, (ast.With, ast.Try)) or (isinstance(p, ast.Try) and not any(x is ystmt or any(y is ystmt for y in ast.walk(x)) for x in p.body)):
+                raise _NoInline("yield under a branch / loop / handler")
+            p = getattr(p, "_parent", None)
+        if p is not h:
+            raise _NoInline("yield not located")
+        pre, body = self._body(call, got=got, allow_yield=True)
+        var = st.items[0].optional_vars
+        done = [False]
+
+        def subst(stmts):
+            out = []
+            for x in stmts:
+                if isinstance(x, ast.Expr) and isinstance(x.value, ast.Yield):
+                    if var is not None:
+                        out.append(ast.Assign(targets=[var], value=x.value.value if x.value.value is not None else ast.Constant(None)))
+                    elif x.value.value is not None and not _simple_expr(x.value.value):
+                        out.append(ast.Expr(x.value.value))
+                    out.extend(st.body)
+                    done[0] = True
+                    continue
+                for fld in ("body", "orelse", "finalbody"):
+                    v = getattr(x, fld, None)
+                    if isinstance(v, list) and v and isinstance(v[0], ast.stmt):
+                        setattr(x, fld, subst(v))
+                out.append(x)
+            return out
+        new = pre + subst(body)
+        if not done[0]:
+            raise _NoInline("yield not located")
+        self._fix(new, st)
+        return self.stmts(new, level + 1)
+
+    def _bind(self, h, recv, kind, call, allow_yield=False):
         a = h.args
         if a.vararg is not None and (a.kwarg or a.kwonlyargs):
             raise _NoInline("variadic")
         if a.kwarg or a.kwonlyargs or any(k.arg is None for k in call.keywords) or any(isinstance(x, ast.Starred) for x in call.args):
             raise _NoInline("variadic call")
-        if any(isinstance(x, (ast.Yield, ast.YieldFrom, ast.Await, ast.Global, ast.Nonlocal)) for st in h.body for x in ast.walk(st)):
+        banned = (ast.Await, ast.Global, ast.Nonlocal) if allow_yield else (ast.Yield, ast.YieldFrom, ast.Await, ast.Global, ast.Nonlocal)
+        if any(isinstance(x, banned) for st in h.body for x in ast.walk(st)):
             raise _NoInline("generator / global")
         ps = [x.arg for x in list(a.posonlyargs) + list(a.args)]
         defaults = dict(zip(ps[len(ps) - len(a.defaults):], a.defaults))
@@ -648,9 +718,9 @@ class Normaliser:
             actual[a.vararg.arg] = ast.Tuple(elts=list(star), ctx=ast.Load())
         return actual
 
-    def _body(self, call):
-        h, recv, kind = self.callee(call)
-        actual = self._bind(h, recv, kind, call)
+    def _body(self, call, got=None, allow_yield=False):
+        h, recv, kind = got or self.callee(call)
+        actual = self._bind(h, recv, kind, call, allow_yield)
         self.count += 1
         tag = f"__i{self.count}"
         body = [s for s in h.body if not (isinstance(s, ast.Expr) and isinstance(s.value, ast.Constant) and isinstance(s.value.value, str))]
@@ -675,6 +745,133 @@ class Normaliser:
                     x.name = rename[x.name]
         self.inlined[h.name] = self.inlined.get(h.name, 0) + 1
         return pre, body
+
+    # ---- method objects: `x = _Private(..)` that never leaves the function -------------------------------------------
+    def _method_object_class(self, name):
+        """the module-level private class ``name`` when it is a plain method object: no bases / decorators, only undecorated methods taking self, and self
+        only ever used as ``self.<field>`` / ``self.<method>(..)``; returns (ClassDef, fields, methods) or None"""
+        c = next((x for x in self.mod.tree.body if isinstance(x, ast.ClassDef) and x.name == name), None)
+        if c is None or not self._helper_name_ok(name) or c.bases or c.keywords or c.decorator_list:
+            return None
+        methods = {}
+        for st in c.body:
+            if isinstance(st, ast.Expr) and isinstance(st.value, ast.Constant):
+                continue
+            if not isinstance(st, ast.FunctionDef) or st.decorator_list or not st.args.args or st.args.args[0].arg != "self":
+                return None
+            if st.name.startswith("__") and st.name != "__init__":
+                return None
+            methods[st.name] = st
+        fields = set()
+        for m in methods.values():
+            for x in ast.walk(m):
+                if isinstance(x, ast.Attribute) and isinstance(x.value, ast.Name) and x.value.id == "self" and isinstance(x.ctx, (ast.Store, ast.Del)):
+                    fields.add(x.attr)
+        if fields & set(methods):
+            return None
+        for m in methods.values():
+            if not self._only_fields_and_calls(m, "self", fields, methods, skip=m.args.args[0]):
+                return None
+        return c, fields, methods
+
+    @staticmethod
+    def _only_fields_and_calls(root, var, fields, methods, skip=None):
+        """every occurrence of the name ``var`` under ``root`` is ``var.<field>`` or the receiver of ``var.<method>(..)``"""
+        for x in ast.walk(root):
+            for ch in ast.iter_child_nodes(x):
+                if isinstance(ch, ast.Name) and ch.id == var and ch is not skip:
+                    if not isinstance(x, ast.Attribute):
+                        return False
+                    if x.attr in fields:
+                        continue
+                    par = getattr(x, "_parent", None)
+                    if x.attr in methods and isinstance(x.ctx, ast.Load) and isinstance(par, ast.Call) and par.func is x:
+                        continue
+                    return False
+            if isinstance(x, ast.arg) and x.arg == var and x is not skip:
+                return False
+        return True
+
+    def _scalarise(self, fn):
+        """``x = _Private(args)`` at the top level of ``fn`` where ``x`` is bound once and only used as ``x.<field>`` / ``x.<method>(..)``: the methods are read
+        as private functions taking the object (then expanded like every private helper) and, when no use of the object as a whole is left, its fields are
+        read as locals ``x__<field>``.  Returns the rewritten body, or None when the shape is not present / not fully resolved."""
+        cands = []
+        for st in fn.body:
+            if isinstance(st, ast.Assign) and len(st.targets) == 1 and isinstance(st.targets[0], ast.Name) and isinstance(st.value, ast.Call) and \
+                    isinstance(st.value.func, ast.Name) and not st.value.keywords and not any(isinstance(a, ast.Starred) for a in st.value.args):
+                cands.append(st)
+        for st in cands:
+            var, cname = st.targets[0].id, st.value.func.id
+            got = self._method_object_class(cname)
+            if got is None:
+                continue
+            c, fields, methods = got
+            stores = [x for x in ast.walk(fn) if isinstance(x, ast.Name) and x.id == var and isinstance(x.ctx, (ast.Store, ast.Del))]
+            if len(stores) != 1 or var in params(fn):
+                continue
+            for parent in ast.walk(fn):
+                for child in ast.iter_child_nodes(parent):
+                    child._parent = parent  # type: ignore[attr-defined]
+            if not self._only_fields_and_calls(fn, var, fields, methods, skip=st.targets[0]):
+                continue
+            nested = [d for d in ast.walk(fn) if isinstance(d, (ast.FunctionDef, ast.AsyncFunctionDef, ast.Lambda)) and d is not fn and
+                      any(isinstance(x, ast.Name) and x.id == var for x in ast.walk(d))]
+            if nested:
+                continue
+            fname = lambda m: f"{cname}__{m.strip('_')}"      # noqa: E731
+
+            class Calls(ast.NodeTransformer):
+                def __init__(s_, recv):
+                    s_.recv = recv
+
+                def visit_Call(s_, node):
+                    s_.generic_visit(node)
+                    f_ = node.func
+                    if isinstance(f_, ast.Attribute) and isinstance(f_.value, ast.Name) and f_.value.id == s_.recv and f_.attr in methods:
+                        return ast.copy_location(ast.Call(func=ast.Name(id=fname(f_.attr), ctx=ast.Load()), args=[ast.Name(id=s_.recv, ctx=ast.Load())] + node.args,
+                                                          keywords=node.keywords), node)
+                    return node
+            added = []
+            for mn, m in methods.items():
+                syn = clone(m)
+                syn.name = fname(mn)
+                for parent in ast.walk(syn):
+                    for child in ast.iter_child_nodes(parent):
+                        child._parent = parent  # type: ignore[attr-defined]
+                syn = Calls("self").visit(syn)
+                if syn.name in self.functions:
+                    added = None
+                    break
+                self.functions[syn.name] = syn
+                added.append(syn.name)
+            if added is None:
+                continue
+            body = clone(fn.body)
+            idx = fn.body.index(st)
+            init = ast.Expr(ast.Call(func=ast.Name(id=fname("__init__"), ctx=ast.Load()), args=[ast.Name(id=var, ctx=ast.Load())] + clone(st.value.args), keywords=[])) \
+                if "__init__" in methods else ast.Pass()
+            body[idx] = ast.copy_location(init, st)
+            body = [Calls(var).visit(b) for b in body]
+            self._fix(body, st)
+            body = self.stmts(body, 0)
+            left = [x for b in body for x in ast.walk(b) if isinstance(x, ast.Name) and x.id == var]
+            attrs = [x for b in body for x in ast.walk(b) if isinstance(x, ast.Attribute) and isinstance(x.value, ast.Name) and x.value.id == var and x.attr in fields]
+            for n_ in added:
+                del self.functions[n_]
+            if len(left) != len(attrs):
+                self.refused[cname] = "method object not fully resolved"
+                continue
+
+            class Fields(ast.NodeTransformer):
+                def visit_Attribute(s_, node):
+                    s_.generic_visit(node)
+                    if isinstance(node.value, ast.Name) and node.value.id == var and node.attr in fields:
+                        return ast.copy_location(ast.Name(id=f"{var}__{node.attr}", ctx=node.ctx), node)
+                    return node
+            self.scalarised.append(cname)
+            return [Fields().visit(b) for b in body]
+        return None
 
     # ---- statements --------------------------------------------------------------------------------
     def _fix(self, nodes, like):
@@ -887,7 +1084,7 @@ class Normaliser:
             return self.stmts(hoisted, level)
         if level < self.depth:
             try:
-                new = self._expand_stmt(st, level)
+                new = self._expand_with(st, level) or self._expand_stmt(st, level)
                 if new is not None:
                     return new
             except _NoInline as e:
@@ -1097,10 +1294,14 @@ class Normaliser:
                 tg = n.targets
             elif isinstance(n, (ast.FunctionDef, ast.AsyncFunctionDef, ast.ClassDef)):
                 counts[n.name] = counts.get(n.name, 0) + 2
+            elif isinstance(n, (ast.Import, ast.ImportFrom)):
+                for al in n.names:          # `from m import f as name` binds the local like an assignment does
+                    nm_ = al.asname or al.name.split(".")[0]
+                    counts[nm_] = counts.get(nm_, 0) + 1
             for t in tg:
                 for e in ast.walk(t):
-                    if isinstance(e, ast.Name):
-                        counts[e.id] = counts.get(e.id, 0) + 1
+                    if isinstance(e, ast.Name) and isinstance(e.ctx, (ast.Store, ast.Del)):
+                        counts[e.id] = counts.get(e.id, 0) + 1      # `self.x = ..` / `d[k] = ..` do not rebind self / d
                     elif isinstance(e, ast.Attribute) and isinstance(e.ctx, (ast.Store, ast.Del)):
                         attr_writes.add(e.attr)
             if isinstance(n, ast.Assign) and len(n.targets) == 1 and isinstance(n.targets[0], ast.Name):
@@ -1399,7 +1600,8 @@ class Normaliser:
                     q = f"{owner}.{st.name}" if owner else st.name
                     if self.scope is not None and q not in self.scope and (owner is None or owner not in self.scope):
                         continue
-                    st.body = self.stmts(st.body, 0)
+                    sc = self._scalarise(st)
+                    st.body = sc if sc is not None else self.stmts(st.body, 0)
                     if consts:
                         sub_ = _Rename(consts, {})
                         st.body = [sub_.visit(b) for b in st.body]
@@ -1482,6 +1684,7 @@ def normalise(ctx, table: Dict[str, Iterable[str]], scopes: Optional[Dict[str, I
             ctx.tree._mods[rel] = new
         if n.inlined:
             ctx.note(f"{rel}: private helpers read as if expanded at their call sites: {', '.join(sorted(n.inlined))}"
+                     + (f"; method objects read as locals: {', '.join(sorted(set(n.scalarised)))}" if n.scalarised else "")
                      + (f"; not expandable: {n.refused}" if n.refused else ""))
 
 
@@ -1667,6 +1870,13 @@ def mini_call(func, args: Dict[str, object], budget: int = 2000, builtins: Optio
                 raise _MiniRaise("ValueError")
             for x, y in zip(t.elts, vs):
                 assign(x, y)
+        elif isinstance(t, ast.Attribute) and getattr(ev(t.value), "_mini_symbolic", False):
+            setattr(ev(t.value), t.attr, v)
+        elif isinstance(t, ast.Subscript) and isinstance(ev(t.value), (list, dict)) and not isinstance(t.slice, ast.Slice):
+            try:
+                ev(t.value)[ev(t.slice)] = v
+            except (IndexError, KeyError, TypeError) as ex:
+                raise _MiniRaise(type(ex).__name__)
         else:
             raise MiniStop("assignment target")
 
@@ -1757,10 +1967,44 @@ def mini_call(func, args: Dict[str, object], budget: int = 2000, builtins: Optio
 
 # ---- path search that respects boolean flags -----------------------------------------------------------------------
 
-def flag_search(g, starts, targets, avoid=(), edge_ok=None, env0=None, limit: int = 20000):
+def flag_truth(test, env):
+    """truth of a test over the known boolean / None locals ``env``: True / False, or None when it is not decided by them.  Read: ``flag``, ``not <t>``,
+    ``flag is [not] None/True/False``, ``flag ==/!= None/True/False``, and / or of these."""
+    if isinstance(test, ast.Name):
+        return bool(env[test.id]) if test.id in env else None
+    if isinstance(test, ast.Constant):
+        return bool(test.value)
+    if isinstance(test, ast.UnaryOp) and isinstance(test.op, ast.Not):
+        v = flag_truth(test.operand, env)
+        return None if v is None else not v
+    if isinstance(test, ast.BoolOp):
+        vs = [flag_truth(x, env) for x in test.values]
+        if isinstance(test.op, ast.And):
+            return False if any(v is False for v in vs) else (True if all(v is True for v in vs) else None)
+        return True if any(v is True for v in vs) else (False if all(v is False for v in vs) else None)
+    if isinstance(test, ast.Compare) and len(test.ops) == 1 and isinstance(test.ops[0], (ast.Is, ast.IsNot, ast.Eq, ast.NotEq)):
+        a, b = test.left, test.comparators[0]
+        if isinstance(a, ast.Constant) and isinstance(b, ast.Name):
+            a, b = b, a
+        if isinstance(a, ast.Name) and a.id in env and isinstance(b, ast.Constant) and (b.value is None or isinstance(b.value, bool)):
+            same = env[a.id] is b.value
+            return same if isinstance(test.ops[0], (ast.Is, ast.Eq)) else not same
+    return None
+
+
+def flag_value(expr, env):
+    """(known, value) of a returned / assigned expression over the flags: a None / bool literal or a known flag"""
+    if isinstance(expr, ast.Constant) and (expr.value is None or isinstance(expr.value, bool)):
+        return True, expr.value
+    if isinstance(expr, ast.Name) and expr.id in env:
+        return True, env[expr.id]
+    return False, None
+
+
+def flag_search(g, starts, targets, avoid=(), edge_ok=None, env0=None, limit: int = 20000, accept=None):
     """Shortest path from ``starts`` to ``targets`` (not through ``avoid``) that is consistent with the boolean / None locals it passes: after
     ``flag = True`` a test ``flag`` / ``not flag`` is only left by the matching edge.  ``starts``: node ids, or (node id, {name: value}) pairs.
-    Returns the path (list of node ids) or None."""
+    ``accept(node id, env)``: optional extra condition on a target, judged with the flags known on arrival.  Returns the path (list of node ids) or None."""
     targets, avoid = set(targets), set(avoid)
     from collections import deque as _dq
     init = []
@@ -1770,7 +2014,7 @@ def flag_search(g, starts, targets, avoid=(), edge_ok=None, env0=None, limit: in
         else:
             init.append((s, frozenset((env0 or {}).items())))
     for st in init:
-        if st[0] in targets:
+        if st[0] in targets and (accept is None or accept(st[0], dict(st[1]))):
             return [st[0]]                # the failing statement leads there directly
     prev = {st: None for st in init}
     dq = _dq(init)
@@ -1781,7 +2025,7 @@ def flag_search(g, starts, targets, avoid=(), edge_ok=None, env0=None, limit: in
         n_ += 1
         if n_ > limit:
             raise AnalysisError("flag-consistent path search exceeded its cap")
-        if nid in targets and prev[cur] is not None:
+        if nid in targets and prev[cur] is not None and (accept is None or accept(nid, dict(envf))):
             out = [cur]
             while prev[out[-1]] is not None:
                 out.append(prev[out[-1]])
@@ -1809,8 +2053,9 @@ def flag_search(g, starts, targets, avoid=(), edge_ok=None, env0=None, limit: in
                 continue
             if edge_ok is not None and not edge_ok(nid, b, l):
                 continue
-            if node.kind == "test" and l in ("T", "F") and isinstance(node.ast, ast.Name) and node.ast.id in env:
-                if bool(env[node.ast.id]) != (l == "T"):
+            if node.kind == "test" and l in ("T", "F") and isinstance(node.ast, ast.expr):
+                tv = flag_truth(node.ast, env)
+                if tv is not None and tv != (l == "T"):
                     continue
             # an assignment that raised did not happen: on the exceptional edge the flags are those before the statement
             nxt = (b, envf if l == "exc" else nenv_ok)
@@ -1847,7 +2092,7 @@ def flags_at(g, node_id, limit: int = 20000):
                             env.pop(e.id, None)
         nenv = frozenset(env.items())
         for b, l in g.succ[nid]:
-            if node.kind == "test" and l in ("T", "F") and isinstance(node.ast, ast.Name) and node.ast.id in env and bool(env[node.ast.id]) != (l == "T"):
+            if node.kind == "test" and l in ("T", "F") and isinstance(node.ast, ast.expr) and flag_truth(node.ast, env) not in (None, l == "T"):
                 continue
             nxt = (b, envf if l == "exc" else nenv)
             if nxt not in seen and len(seen) < limit:
